@@ -18,7 +18,8 @@ Inductive pev :=
 | PActivate (a : actor)
 | PAttach (q : req) (o : oresp)
 | PCall (q : req) (o : oresp)
-| PDeactivate (a : actor).
+| PDeactivate (a : actor)
+| PCompact (force : bool) (row : option chdr) (ok : bool).
 
 (* on the wire a nil vector and an empty vector are the same thing *)
 Definition ovv_norm (a : option vv) : vv := match a with Some v => v | None => [] end.
@@ -75,6 +76,11 @@ Fixpoint replay (s : srv) (evs : list pev) (i : nat) : option nat * srv :=
               if resp_matches rp er o
               then replay (match er with ENone => s2 | _ => s end) r (S i)
               else (Some i, s)
+          end
+      | PCompact force row ok =>
+          match compact s force row with
+          | Some s' => if ok then replay s' r (S i) else (Some i, s)
+          | None => if ok then (Some i, s) else replay s r (S i)
           end
       | PCall q o =>
           let '(s2, rp, er) := push_pull s q in
